@@ -14,5 +14,8 @@ PROP = {
     "units": [
         {"name": "proc04", "pkg": "./internal/pkg/verifproc", "run": "^TestVerif_C04_Proc$", "kind": "rapid",
          "facets": ["C04/proc"], "checks": (2, 30), "shards": (12, 16), "timeout": (900, 3000), "shrinktime": (20, 60)},
+        # strict reproduction of the open finding (default seen-store + kill): runs only while known_findings.json lists it as open
+        {"name": "c04kf-seen", "pkg": "./internal/pkg/verifproc", "run": "^TestVerifKF_C04_SeenBeforeCaptured$", "kind": "kf",
+         "finding": "C04-seen-before-captured", "facets": ["C04/proc"], "checks": (1, 1), "shards": (1, 1), "timeout": (300, 300)},
     ],
 }
